@@ -513,6 +513,8 @@ func (h *histRun) apply(o OpDef) bool {
 	return true
 }
 
+const groupNoise = 3 // unfinished requests held on a second key in the ShedderGroup lane
+
 func runHistory(c histCfg, disabled bool, ops []OpDef, verbose bool) histResult {
 	vsched.SetNow(baseClock)
 	cpuOverNow = false
@@ -523,12 +525,36 @@ func runHistory(c histCfg, disabled bool, ops []OpDef, verbose bool) histResult 
 	h.promises = make([]load.Promise, 0, 256)
 	h.m.out = make([]int64, 0, 256)
 	opts := []load.ShedderOption{load.WithWindow(c.Window), load.WithBuckets(c.Buckets), load.WithCpuThreshold(c.threshold())}
+	endCheck := func() bool { return true }
 	if c.ViaGroup {
 		g := load.NewShedderGroup(opts...)
 		h.s = g.GetShedder("svc")
 		if again := g.GetShedder("svc"); again != h.s {
 			h.fail("group-different-shedder", "ShedderGroup.GetShedder returned two different shedders for one key")
 			return h.res
+		}
+		// a second key of the same group holds 3 unfinished requests for the whole history: keys are
+		// independent, so every oracle of this lane (in-flight counter of "svc" == admitted − resolved
+		// of "svc", shed conditions on the in-flight count of "svc") must hold unchanged, and at the end
+		// the other key still counts exactly its own 3
+		if !disabled {
+			for i := 0; i < groupNoise; i++ {
+				if _, err := g.GetShedder("other").Allow(); err != nil {
+					h.fail("shed-with-nothing-in-flight", "Allow #%d on a second key of the group was shed on a fresh group with the CPU under the threshold", i+1)
+					return h.res
+				}
+			}
+			if !h.checkFlying("Allow on another key of the group") {
+				return h.res
+			}
+			endCheck = func() bool {
+				if again := g.GetShedder("svc"); again != h.s {
+					return h.fail("group-different-shedder", "ShedderGroup.GetShedder returned a different shedder for the key at the end of the history")
+				} else if f := load.VerifFlying(g.GetShedder("other")); f != groupNoise {
+					return h.fail("group-keys-not-independent", "a second key of the group admitted %d requests and resolved none, but its shedder counts %d in flight after this history on the first key", groupNoise, f)
+				}
+				return true
+			}
 		}
 	} else {
 		h.s = load.NewAdaptiveShedder(opts...)
@@ -541,6 +567,9 @@ func runHistory(c histCfg, disabled bool, ops []OpDef, verbose bool) histResult 
 		if !h.apply(o) {
 			return h.res
 		}
+	}
+	if !endCheck() {
+		return h.res
 	}
 	h.res.key, h.res.info = h.stateKey()
 	h.res.active, h.res.sheds, h.res.must, h.res.hotSheds = h.active, h.nshed, h.must, h.hotSheds
